@@ -132,6 +132,8 @@ def write(handle:IO, anno:GenomicAnnotation) -> None:
             records = tx_model.cds + tx_model.exon
             records.sort()
             records.extend(tx_model.utr)
+            records.extend(x for x in tx_model.five_utr + tx_model.three_utr
+                if x not in tx_model.utr)
             records = tx_model.selenocysteine + records
             for record in records:
                 handle.write(to_gtf_record(record) + '\n')
